@@ -33,3 +33,84 @@ Definition tz_uint (x : N) : N := match x with N0 => 64 | Npos p => tz_pos p end
 (* What a function outside the translated fragment is defined as: not a
    function, so its equivalence theorem does not even type-check. *)
 Inductive untranslated : Set := UNSUPPORTED (why : string).
+
+(* ================================================================== *)
+(* Vocabulary of Gen/KeysGen.v (go/cmd/srcfacts/translate_keys.go): the
+   numeric codecs of keys.go. This is the TRUSTED reading of the Go idioms.
+
+   Representation: uintW is an N below 2^W; intW is a Z in
+   [-2^(W-1), 2^(W-1)); a float32 / float64 IS its IEEE-754 bit pattern (an N
+   below 2^32 / 2^64); []byte is list N. The width argument w of the
+   primitives is the width in BITS of the Go operand type. Operands are
+   assumed in range (the theorems of Proofs/TranslateKeysFacts.v bound the
+   inputs; every primitive returns a value in range). *)
+
+(* uintW(x) for x of a wider unsigned type: truncation *)
+Definition wrapw (w x : N) : N := x mod 2 ^ w.
+(* a + b, a - b, a * b on uintW: wrap modulo 2^W *)
+Definition addw (w a b : N) : N := (a + b) mod 2 ^ w.
+Definition subw (w a b : N) : N := (a + 2 ^ w - b) mod 2 ^ w.
+Definition mulw (w a b : N) : N := (a * b) mod 2 ^ w.
+(* ^a on uintW *)
+Definition notw (w a : N) : N := N.lxor a (N.ones w).
+(* a << s on uintW: bits shifted beyond the width are lost, s >= W gives 0;
+   a >> s on uintW: logical shift *)
+Definition shlw (w a s : N) : N := N.shiftl a s mod 2 ^ w.
+Definition shrw (w a s : N) : N := N.shiftr a s.
+
+(* the unsafe read  * ( *uintW)(unsafe.Pointer(&x))  of an intW x, and the conversion uintW(x):
+   the two's complement bits of x *)
+Definition bits_of_int (w : N) (z : Z) : N := Z.to_N (z mod 2 ^ Z.of_N w).
+(* the unsafe read  * ( *intW)(unsafe.Pointer(&u))  of a uintW u, and the conversion intW(u):
+   the bits read as a two's complement number (top bit set: u - 2^W) *)
+Definition int_of_bits (w : N) (u : N) : Z :=
+  if u <? 2 ^ (w - 1) then Z.of_N u else (Z.of_N u - 2 ^ Z.of_N w)%Z.
+(* -x on intW: two's complement negation, wraps (-MinIntW = MinIntW) *)
+Definition negw (w : N) (z : Z) : Z := int_of_bits w (bits_of_int w (- z)).
+
+(* encoding/binary (binary.go), type bigEndian:
+     func (bigEndian) PutUint16(b []byte, v uint16) { _ = b[1]; b[0] = byte(v >> 8); b[1] = byte(v) }
+     func (bigEndian) PutUint32(b []byte, v uint32) { _ = b[3]; b[0] = byte(v >> 24); ...; b[3] = byte(v) }
+     func (bigEndian) PutUint64(b []byte, v uint64) { _ = b[7]; b[0] = byte(v >> 56); ...; b[7] = byte(v) }
+   be_put_uintNN b v is the slice b after the call: its first NN/8 bytes
+   overwritten, the others kept. A b shorter than NN/8 panics in Go (not
+   modelled: the translated code calls it on make([]byte, NN/8)). *)
+Definition be_put_uint16 (b : list N) (v : N) : list N :=
+  [N.shiftr v 8 mod 256; v mod 256] ++ skipn 2 b.
+Definition be_put_uint32 (b : list N) (v : N) : list N :=
+  [N.shiftr v 24 mod 256; N.shiftr v 16 mod 256; N.shiftr v 8 mod 256; v mod 256] ++ skipn 4 b.
+Definition be_put_uint64 (b : list N) (v : N) : list N :=
+  [N.shiftr v 56 mod 256; N.shiftr v 48 mod 256; N.shiftr v 40 mod 256; N.shiftr v 32 mod 256;
+   N.shiftr v 24 mod 256; N.shiftr v 16 mod 256; N.shiftr v 8 mod 256; v mod 256] ++ skipn 8 b.
+(*   func (bigEndian) Uint16(b []byte) uint16 { _ = b[1]; return uint16(b[1]) | uint16(b[0])<<8 }
+     func (bigEndian) Uint32(b []byte) uint32 { _ = b[3]; return uint32(b[3]) | uint32(b[2])<<8 | uint32(b[1])<<16 | uint32(b[0])<<24 }
+     func (bigEndian) Uint64(b []byte) uint64 { _ = b[7]; return uint64(b[7]) | uint64(b[6])<<8 | ... | uint64(b[0])<<56 }
+   (the elements are bytes, so no shift leaves the width; a short b panics in Go) *)
+Definition be_uint16 (b : list N) : N :=
+  N.lor (nth 1 b 0) (N.shiftl (nth 0 b 0) 8).
+Definition be_uint32 (b : list N) : N :=
+  N.lor (N.lor (N.lor (nth 3 b 0) (N.shiftl (nth 2 b 0) 8)) (N.shiftl (nth 1 b 0) 16)) (N.shiftl (nth 0 b 0) 24).
+Definition be_uint64 (b : list N) : N :=
+  N.lor (N.lor (N.lor (N.lor (N.lor (N.lor (N.lor (nth 7 b 0) (N.shiftl (nth 6 b 0) 8)) (N.shiftl (nth 5 b 0) 16))
+    (N.shiftl (nth 4 b 0) 24)) (N.shiftl (nth 3 b 0) 32)) (N.shiftl (nth 2 b 0) 40)) (N.shiftl (nth 1 b 0) 48))
+    (N.shiftl (nth 0 b 0) 56).
+
+(* IEEE-754 binary32 / binary64 bit patterns: sign (1 bit) | exponent (8 / 11 bits) | mantissa (23 / 52 bits) *)
+Definition f_mant (w : N) : N := if w =? 32 then 23 else 52.
+Definition f_expo (w : N) : N := if w =? 32 then 8 else 11.
+(* math.Inf(1), math.Inf(-1) (converted to the float type of width w):
+   exponent all ones, mantissa 0, sign 0 / 1 *)
+Definition f_pinf (w : N) : N := N.shiftl (N.ones (f_expo w)) (f_mant w).
+Definition f_ninf (w : N) : N := N.lor (f_pinf w) (N.shiftl 1 (w - 1)).
+(* math.NaN() is math.Float64frombits(0x7FF8000000000001) (math/bits.go: uvnan);
+   float32(math.NaN()) is the quiet NaN with the payload truncated to 23 bits, 0x7FC00000 *)
+Definition f_nan (w : N) : N := if w =? 32 then 0x7FC00000 else 0x7FF8000000000001.
+(* math.IsInf(f, 1), math.IsInf(f, -1), math.IsNaN(f) on the bit pattern of f
+   (NaN: exponent all ones and mantissa non-zero). For f = float64(x) with x a
+   float32 they are the float32 predicates on x: the conversion is exact, it maps
+   +Inf / -Inf / NaN / finite to +Inf / -Inf / NaN / finite. *)
+Definition f_is_pinf (w x : N) : bool := x =? f_pinf w.
+Definition f_is_ninf (w x : N) : bool := x =? f_ninf w.
+Definition f_is_nan (w x : N) : bool :=
+  (N.land (N.shiftr x (f_mant w)) (N.ones (f_expo w)) =? N.ones (f_expo w)) &&
+  negb (N.land x (N.ones (f_mant w)) =? 0).
